@@ -26,6 +26,8 @@ pub enum Unit {
 	Init,
 	Lock,
 	Receive,
+	/// a second, different incoming payment (restored-wallet scenario)
+	Receive2,
 	Finalize,
 	CancelPosted,
 	CancelPending,
@@ -49,9 +51,13 @@ pub struct Scenario {
 	/// block ahead (so that a mined block expires it)
 	#[serde(default)]
 	ttl: bool,
+	/// base world variant with a wallet R freshly restored from the seed of a wallet that has one
+	/// output on chain (never scanned); the units act on R
+	#[serde(default)]
+	restored: bool,
 }
 
-fn base_world(dir: &str, ttl: bool) {
+fn base_world(dir: &str, ttl: bool, restored: bool) {
 	let mut w = World::create(dir, &[("A", "A"), ("B", "B"), ("M", "M")]);
 	w.mine_n("A", 5);
 	w.mine_n("B", 3);
@@ -82,7 +88,26 @@ fn base_world(dir: &str, ttl: bool) {
 	// N: a pending (never posted) send to cancel
 	let n1 = a.init_send(default_args(2 * G)).unwrap();
 	a.lock(&n1).unwrap();
+	let mut r1 = r1;
+	let mut r2_json = String::new();
+	let mut target = "A";
+	if restored {
+		// S: a wallet with exactly one output on chain; R: the same seed, empty store, never scanned
+		w.add_wallet("S", "S");
+		w.mine("S").unwrap();
+		w.add_wallet("R", "S");
+		let b = w.w("B");
+		b.refresh().unwrap();
+		r1 = b.init_send(default_args(1 * G)).unwrap();
+		b.lock(&r1).unwrap();
+		let r2 = b.init_send(default_args(2 * G)).unwrap();
+		b.lock(&r2).unwrap();
+		r2_json = slate_to_json(&r2);
+		target = "R";
+	}
 	w.meta.extra = json!({
+		"target": target,
+		"r2": r2_json,
 		"p_id": p_id.to_string(),
 		"q2": slate_to_json(&q2),
 		"q_id": q1.id.to_string(),
@@ -97,8 +122,12 @@ fn slots(w: &World) -> Vec<Uuid> {
 }
 
 /// run one unit on the world (from whatever thread); returns an outcome label
+fn target(w: &World) -> &str {
+	w.meta.extra["target"].as_str().unwrap_or("A")
+}
+
 fn run_unit(w: &World, u: &Unit, q3_tx: &Mutex<Option<String>>) -> String {
-	let a = w.w("A");
+	let a = w.w(target(w));
 	let lbl = |r: Result<(), crate::libwallet::Error>| match r {
 		Ok(()) => "ok".to_owned(),
 		Err(e) => format!("err:{}", format!("{:?}", e).chars().take_while(|c| c.is_alphanumeric()).collect::<String>()),
@@ -129,6 +158,11 @@ fn run_unit(w: &World, u: &Unit, q3_tx: &Mutex<Option<String>>) -> String {
 		}
 		Unit::Receive => {
 			let s = slate_from_json(w.meta.extra["r1"].as_str().unwrap());
+			sched::yield_point(Point::Lock);
+			lbl(a.receive(&s, None).map(|_| ()))
+		}
+		Unit::Receive2 => {
+			let s = slate_from_json(w.meta.extra["r2"].as_str().unwrap());
 			sched::yield_point(Point::Lock);
 			lbl(a.receive(&s, None).map(|_| ()))
 		}
@@ -169,7 +203,7 @@ fn run_unit(w: &World, u: &Unit, q3_tx: &Mutex<Option<String>>) -> String {
 
 fn project(w: &World) -> Value {
 	let opts = ProjOpts { slots: slots(w), heights: false, canon_ids: true };
-	let mut v = project_wallet(w.w("A"), &opts);
+	let mut v = project_wallet(w.w(target(w)), &opts);
 	// key indices of a refused / repeated hand-out may differ without any visible effect on funds:
 	// kept (the statement lists key indices)
 	// node-side state (the pool) is not part of the compared state: the statement is about the wallet
@@ -244,7 +278,7 @@ fn run_schedule(dir: &str, base: &Snapshot, sc: &Scenario, prefix: &[usize]) -> 
 			}
 		}));
 	}
-	let a_inst = w.w("A").inst.clone();
+	let a_inst = w.w(target(&w)).inst.clone();
 	let log = s.run(prefix, &|| a_inst.try_lock().is_some());
 	for h in handles {
 		let _ = h.join();
@@ -519,7 +553,7 @@ fn explore_scenario(root: &str, base: &Snapshot, sc: &Scenario, bound: Option<us
 }
 
 fn scenarios(thorough: bool) -> Vec<Scenario> {
-	let sc = |name: &str, r: Unit, ops: Vec<Vec<Unit>>, ev: Vec<Unit>| Scenario { name: name.into(), refresher: r, ops, events: ev, ttl: false };
+	let sc = |name: &str, r: Unit, ops: Vec<Vec<Unit>>, ev: Vec<Unit>| Scenario { name: name.into(), refresher: r, ops, events: ev, ttl: false, restored: false };
 	let il = || vec![Unit::Init, Unit::Lock];
 	let mut v = vec![
 		sc("refresh+cancel-posted+mine", Unit::Refresh, vec![vec![Unit::CancelPosted]], vec![Unit::EvMine]),
@@ -531,6 +565,7 @@ fn scenarios(thorough: bool) -> Vec<Scenario> {
 		sc("scan-delete+init-lock", Unit::Scan { delete_unconfirmed: true }, vec![il()], vec![]),
 		sc("scan-delete+cancel-pending", Unit::Scan { delete_unconfirmed: true }, vec![vec![Unit::CancelPending]], vec![]),
 		Scenario { ttl: true, ..sc("refresh+finalize-expiring+mine", Unit::Refresh, vec![vec![Unit::Finalize]], vec![Unit::EvMine]) },
+		Scenario { restored: true, ..sc("restored:scan+receive+receive", Unit::Scan { delete_unconfirmed: false }, vec![vec![Unit::Receive, Unit::Receive2]], vec![]) },
 	];
 	if thorough {
 		v.extend(vec![
@@ -551,7 +586,7 @@ pub fn replay(payload: &Value) -> i32 {
 	let root = scratch_root();
 	let sc: Scenario = serde_json::from_value(payload["scenario"].clone()).unwrap();
 	let based = format!("{}/c20-replay-base", root);
-	base_world(&based, sc.ttl);
+	base_world(&based, sc.ttl, sc.restored);
 	let base = Snapshot::capture(&based);
 	let schedule: Vec<usize> = serde_json::from_value(payload["schedule"].clone()).unwrap_or_default();
 	let perms = permutations(&sc);
@@ -582,11 +617,14 @@ pub fn run(_args: &[String]) -> i32 {
 	sched::install_hooks();
 	let root = scratch_root();
 	let based = format!("{}/c20-base", root);
-	base_world(&based, false);
+	base_world(&based, false, false);
 	let base_plain = Snapshot::capture(&based);
 	let based_ttl = format!("{}/c20-base-ttl", root);
-	base_world(&based_ttl, true);
+	base_world(&based_ttl, true, false);
 	let base_ttl = Snapshot::capture(&based_ttl);
+	let based_res = format!("{}/c20-base-restored", root);
+	base_world(&based_res, false, true);
+	let base_res = Snapshot::capture(&based_res);
 	let mut scs = scenarios(thorough);
 	// recorded schedules of the known findings: re-run in every tier (pinned/C20.json, committed)
 	let pinned: Vec<Value> = std::fs::read(format!("{}/pinned/C20.json", verif_root())).ok().and_then(|b| serde_json::from_slice(&b).ok()).unwrap_or_default();
@@ -612,7 +650,7 @@ pub fn run(_args: &[String]) -> i32 {
 		let budget: u64 = std::env::var("GWV_C20_BUDGET").ok().and_then(|v| v.parse().ok()).unwrap_or(if thorough { 40_000 } else { 700 });
 		let pins: Vec<Vec<usize>> = pinned.iter().filter(|p| p["scenario"]["name"] == json!(sc.name)).filter_map(|p| serde_json::from_value(p["schedule"].clone()).ok()).collect();
 		let pinned_only = !thorough && std::env::var("GWV_C20_SCENARIO").is_err() && !scenarios(false).iter().any(|q| q.name == sc.name);
-		let base = if sc.ttl { &base_ttl } else { &base_plain };
+		let base = if sc.restored { &base_res } else if sc.ttl { &base_ttl } else { &base_plain };
 		let r = explore_scenario(&root, base, sc, None, per_wall, if pinned_only { 0 } else { budget }, &pins);
 		total += r.schedules;
 		distinct_total += r.distinct_final;
